@@ -1,8 +1,8 @@
 #!/bin/bash
-# usage: tools_seed.sh <Cxx> [label]  — confirm a seeded change made by a sub-agent in /tmp/seed_<label>, keep it under
+# usage: tools_seed.sh <Cxx> [worktree label] [name under /verif/seeded]  — confirm a seeded change made by a sub-agent in /tmp/seed_<label>, keep it under
 # /verif/seeded/<label>, run the property's check against it (applied to /repo, undone right afterwards).
 export GOFLAGS=-mod=mod GOPROXY=off GOSUMDB=off GOTOOLCHAIN=local
-id=$1; label=${2:-$1}; d=/tmp/seed_$label; out=/verif/seeded/$label
+id=$1; label=${2:-$1}; d=/tmp/seed_$label; out=/verif/seeded/${3:-$label}
 set -u
 [ -f $d/SEED/patch.diff ] || { echo "no patch"; exit 1; }
 mkdir -p $out; cp $d/SEED/* $out/ 2>/dev/null
@@ -21,7 +21,9 @@ echo "build=$b suite=$s demo_with_change=$w demo_without=$wo" | tee -a $log
 if [ $b -ne 0 ] || [ $s -ne 0 ] || [ $w -eq 0 ] || [ $wo -ne 0 ]; then echo "NOT CONFIRMED"; exit 2; fi
 # run the check against the change
 cd /repo && git apply $out/patch.diff || { echo "patch does not apply to /repo"; exit 3; }
+cp /verif/evidence/$id.json /var/tmp/evidence_$id.bak 2>/dev/null  # the evidence file must describe /repo itself, not the seeded tree
 cd /verif && ./bin/govc check $id > $out/check_output.txt 2>&1; rc=$?
+cp /verif/evidence/$id.json $out/evidence_with_change.json 2>/dev/null; mv /var/tmp/evidence_$id.bak /verif/evidence/$id.json 2>/dev/null
 git -C /repo checkout -- . 
 echo "check exit=$rc"; grep -c "^VIOLATION" $out/check_output.txt; grep "^VIOLATION" $out/check_output.txt | sed 's/.*obligation=//' | head -5
 python3 - <<PY
